@@ -9,6 +9,7 @@ import (
 	"go/constant"
 	"go/token"
 	"go/types"
+	"regexp"
 	"sort"
 	"strings"
 
@@ -388,6 +389,7 @@ func (vc *VC) enterLoop(fr *Frame, h *ssa.BasicBlock, edges []edgeState, ord int
 	for _, k := range mk {
 		if _, ok := vc.svSort[k]; ok && k != "G_alloc" {
 			vc.refAxiom(cur.pc, k, cur.vars[k], vc.allocBound(cur))
+			vc.loopFrameFact(cur, k)
 		}
 	}
 	for _, instr := range h.Instrs {
@@ -702,8 +704,14 @@ func smtReal(s string) string {
 
 // ------------------------------------------------------------------ memory
 
+var aliasByteRe = regexp.MustCompile(`\bbyte\b`)
+var aliasRuneRe = regexp.MustCompile(`\brune\b`)
+
+// typeKey names a type; byte/uint8 and rune/int32 are the same types in Go and must share their heaps.
 func typeKey(t types.Type) string {
-	return types.TypeString(t, func(p *types.Package) string { return p.Name() })
+	s := types.TypeString(t, func(p *types.Package) string { return p.Name() })
+	s = aliasByteRe.ReplaceAllString(s, "uint8")
+	return aliasRuneRe.ReplaceAllString(s, "int32")
 }
 
 func (vc *VC) fieldSV(structT types.Type, idx int) (string, types.Type) {
@@ -921,7 +929,13 @@ func (vc *VC) locOf(fr *Frame, st *State, v ssa.Value) *Loc {
 			return vc.locOfPointer(vc.value(fr, st, v), elem)
 		}
 		name := "GV_" + sanitizeID(g.String())
+		_, known := vc.svSort[name]
 		vc.svDeclare(name, vc.sortOf(elem))
+		if !known && vc.sortOf(elem) == "Iface" && g.Pkg != nil && !vc.eng.inModuleType(g.Type()) && !strings.HasPrefix(g.Pkg.Pkg.Path(), "github.com/bluenviron/gohlslib") && elem.String() == "error" {
+			// sentinel errors of dependencies (io.EOF, ...) are non-nil
+			vc.fact("true", fmt.Sprintf("(and (> (if_type %s) 0) (> (if_val %s) 0))", vc.svInit[name], vc.svInit[name]))
+			vc.assume("T3 exported sentinel error variables of dependencies (" + g.String() + ") are non-nil")
+		}
 		return &Loc{kind: "global", sv: name, typ: elem}
 	}
 	if fv, ok := v.(*ssa.FreeVar); ok {
@@ -934,4 +948,26 @@ func (vc *VC) locOf(fr *Frame, st *State, v ssa.Value) *Loc {
 		panic("locOf: not a pointer: " + v.String())
 	}
 	return vc.locOfPointer(vc.value(fr, st, v), pt.Elem())
+}
+
+// loopFrameFact: at a loop head the heap arrays written by the loop are havocked; objects that existed at
+// function entry and are not named in the function's modifies clause keep their entry contents (every
+// write is separately checked against the modifies clause by a frame obligation, so this is the frame
+// rule, not an extra assumption).
+func (vc *VC) loopFrameFact(cur *State, k string) {
+	if vc.fc == nil || vc.fc.ModifiesAll || vc.fc.NoFrame || vc.frameWhole == nil || vc.entry == nil {
+		return
+	}
+	if vc.frameWhole[k] || strings.HasPrefix(k, "G_") || strings.HasPrefix(k, "L|") || strings.HasPrefix(k, "V_") || strings.HasPrefix(k, "GV_") {
+		return
+	}
+	if !strings.HasPrefix(vc.svSort[k], "(Array Int ") {
+		return
+	}
+	conds := []string{fmt.Sprintf("(< a %s)", vc.allocBound(vc.entry)), "(>= a 0)"}
+	for _, o := range vc.frameObjs[k] {
+		conds = append(conds, fmt.Sprintf("(not (= a %s))", o))
+	}
+	vc.fact(cur.pc, fmt.Sprintf("(forall ((a Int)) (! (=> (and %s) (= (select %s a) (select %s a))) :pattern ((select %s a))))",
+		strings.Join(conds, " "), cur.vars[k], vc.get(vc.entry, k), cur.vars[k]))
 }
